@@ -174,6 +174,8 @@ struct TcpNameserver {
     tcp: Option<tokio::net::TcpStream>,
     tcp_last_send_activity: Instant,
     tcp_last_recv_activity: Instant,
+    /* What has been read from the TCP connection, but is not yet a complete reply. */
+    tcp_recv_buf: Vec<u8>,
     qid2reply: std::collections::HashMap<u16, Responder<super::dnspkt::DNSPkt>>,
 }
 
@@ -185,6 +187,7 @@ impl TcpNameserver {
             tcp: None,
             tcp_last_send_activity: Instant::now(),
             tcp_last_recv_activity: Instant::now(),
+            tcp_recv_buf: vec![],
             qid2reply: Default::default(),
         });
 
@@ -254,23 +257,37 @@ impl TcpNameserver {
         }
     }
 
+    /* This is one branch of the select! in run(), so it is dropped, and later called again,
+     * whenever another branch completes first (usually a new query to send).  Everything read so
+     * far therefore has to live in self rather than in this future: a reply that arrives in more
+     * than one segment would otherwise lose its first part, and the framing of every reply after
+     * it.  read_buf() either appends to the buffer or, if dropped, has read nothing.
+     */
     async fn read_reply(&mut self) -> Result<Vec<u8>, Error> {
         if let Some(ref mut tcp_sock) = self.tcp {
             use tokio::io::AsyncReadExt as _;
-            let mut lbuf = [0u8; 2];
-            tcp_sock
-                .read_exact(&mut lbuf)
-                .await
-                .map_err(Error::FailedToRecv)?;
-            let l = u16::from_be_bytes(lbuf);
-            let mut msg_buf = vec![0u8; l as usize];
-            log::trace!("Reading {} bytes from TCP socket", l);
-            tcp_sock
-                .read_exact(&mut msg_buf[..])
-                .await
-                .map_err(Error::FailedToRecv)?;
-            self.tcp_last_recv_activity = Instant::now();
-            Ok(msg_buf)
+            loop {
+                if self.tcp_recv_buf.len() >= 2 {
+                    let l = u16::from_be_bytes([self.tcp_recv_buf[0], self.tcp_recv_buf[1]]);
+                    if self.tcp_recv_buf.len() >= 2 + l as usize {
+                        log::trace!("Read {} bytes from TCP socket", l);
+                        let msg_buf = self.tcp_recv_buf[2..2 + l as usize].to_vec();
+                        self.tcp_recv_buf.drain(..2 + l as usize);
+                        self.tcp_last_recv_activity = Instant::now();
+                        return Ok(msg_buf);
+                    }
+                }
+                if tcp_sock
+                    .read_buf(&mut self.tcp_recv_buf)
+                    .await
+                    .map_err(Error::FailedToRecv)?
+                    == 0
+                {
+                    return Err(Error::FailedToRecv(
+                        std::io::ErrorKind::UnexpectedEof.into(),
+                    ));
+                }
+            }
         } else {
             panic!("Read from non existant tcp socket");
         }
@@ -290,6 +307,7 @@ impl TcpNameserver {
 
     fn tcp_teardown(&mut self, err: Error) {
         self.tcp = None;
+        self.tcp_recv_buf.clear();
         log::trace!("Tearing down {} TCP channel: {}", self.addr, err);
         for (_qid, chan) in self.qid2reply.drain() {
             chan.send(Err(Error::TcpConnection(format!(
